@@ -1001,6 +1001,23 @@ def _div_points(eb, signed):
                     out.append(((-n) & M, d))
                     out.append((n, (-d) & M))
                     out.append(((-n) & M, (-d) & M))
+    # numerators just below the top of the range against divisors with regular bit patterns (their multipliers
+    # have long carry chains: multi-word multiply emulations lose a carry there first)
+    H = eb // 2
+    HM = (1 << H) - 1
+    pats = [0x5555555555555555 & HM, 0x3333333333333333 & HM, 0x0F0F0F0F0F0F0F0F & HM, 0xAAAAAAAAAAAAAAAB & HM, 0xCCCCCCCCCCCCCCCD & HM,
+            0x5555555555555555 & M, 0x3333333333333333 & M, 0xAAAAAAAAAAAAAAAB & M, 0xCCCCCCCCCCCCCCCD & M, 10, 1000, 1000000007 & M, 6, 12, 24, 60]
+    top = ((1 << (eb - 1)) - 1) if signed else M
+    for d in pats:
+        if d < 2 or (signed and d > top):
+            continue
+        for k in range(8):
+            for n in (top - k, (top >> 1) - k, top - (k << H) if (k << H) < top else top):
+                if (n, d) not in seen and n > 0:
+                    seen.add((n, d))
+                    out.append((n, d))
+                    if signed:
+                        out.append(((-n) & M, d))
     return out
 
 
@@ -1230,6 +1247,30 @@ def fam_scalar(vt, cfg):
         j.optional = True        # a scalar overload that a type does not offer is not an obligation
         j.vector_family = fam
         out.append(j)
+    if vt.is_float:
+        # the scalar overloads of the <cmath>-style family (the width-1 vectors forward to them; C12 judges those):
+        # a call to the C library function is the specification itself
+        eb = vt.eb
+        SS2 = [("S", "a"), ("S", "b")]
+        two = {"fmax": lambda c: T.op("spec:c_fmax", eb, c.args["a"], c.args["b"]),
+               "fmin": lambda c: T.op("spec:c_fmin", eb, c.args["a"], c.args["b"]),
+               "fdim": lambda c: T.op("spec:c_fdim", eb, c.args["a"], c.args["b"]),
+               "fmod": lambda c: T.op("call:fmodf" if eb == 32 else "call:fmod", eb, c.args["a"], c.args["b"])}
+        for fn, e in two.items():
+            j = Inst("s" + fn, SS2, "S", "avel::%s(a, b)" % fn, e, judge=judge_numeq)
+            j.optional = True
+            if fn in ("fmax", "fmin"):
+                j.env_ok = _no_snan_lanes(vt, ("a", "b"))
+            elif fn == "fdim":
+                j.env_ok = _fdim_domain(vt)
+            j.vector_family = "cmathx"
+            j.budget_s = 2 if TIER == "quick" else 8
+            out.append(j)
+        for fn, sp in (("frac", "spec:c_frac"), ("logb", "spec:c_logb")):
+            j = Inst("s" + fn, [("S", "a")], "S", "avel::%s(a)" % fn, lambda c, sp=sp: T.op(sp, eb, c.args["a"]), judge=judge_numeq)
+            j.optional = True
+            j.vector_family = "cmathx"
+            out.append(j)
     if vt.is_int and vt.signed:
         for nm in ("equal", "not_equal", "less", "less_equal", "greater", "greater_equal"):
             out.append(Inst("cmp_%s_us" % nm, [("US", "x"), ("SI", "y")], "B", "avel::cmp_%s(x, y)" % nm, None,
